@@ -4,6 +4,7 @@ import AM.Proto
 import AM.ProtoTracker
 import AM.Model.Pipe
 import AM.Model.DirReader
+import AM.Model.DirLoop
 import AM.Model.Health
 import AM.Model.Conc
 import AM.Spec.AuditProc
@@ -179,14 +180,37 @@ def dirLine (f : List String) : String :=
       match kv.splitOn "=" with
       | [n, c] => (ofHex c).map fun b => (n.toList, b)
       | _ => none
-    let os := if ops == "-" then some [] else (ops.splitOn ";").mapM fun o =>
+    -- `early:<n>` (first operation): a write event without a change arrives when the consumer has taken n lines of the
+    -- start-up read — the loop model `DirLoop` is run on the corresponding script (the event falls before the completion
+    -- of the start-up read that is in flight at that moment, or after start-up)
+    let opl := if ops == "-" then [] else ops.splitOn ";"
+    let earlyN : Option Nat := match opl with
+      | o :: _ => if o.startsWith "early:" then (o.drop 6).toString.toNat? else none
+      | [] => none
+    let opl := match earlyN with | some _ => opl.drop 1 | none => opl
+    let os := opl.mapM fun o =>
       if o == "rot" then some Dir.FsOp.rotate
       else if o == "trunc" then some Dir.FsOp.truncate
       else if o.startsWith "a:" then (ofHex (o.drop 2).toString).map Dir.FsOp.append
       else none
     match fs, os with
     | some fs, some os =>
-      let o := Dir.run fs os
+      let o := match earlyN with
+        | none => Dir.run fs os
+        | some n =>
+          let order := Dir.sortNames (fs.map (·.1))
+          let counts := order.map fun nm => (DirLoop.linesOf fs nm).length
+          -- index of the start-up read in flight once n lines have been taken: the first file whose lines are not all taken
+          let rec idx (cs : List Nat) (k acc : Nat) : Option Nat :=
+            match cs with
+            | [] => none
+            | c :: r => if n < acc + c then some k else idx r (k + 1) (acc + c)
+          let atK := idx counts 0 0
+          let ins : List DirLoop.LIn :=
+            ((List.range order.length).flatMap fun k =>
+              (if atK == some k then [DirLoop.LIn.spurious] else []) ++ [DirLoop.LIn.done]) ++
+            (if atK.isNone then [DirLoop.LIn.spurious] else []) ++ os.map DirLoop.LIn.event
+          (DirLoop.run .namesNil fs ins).w.out
       let exp := Dir.expected fs os
       let sp := if o = exp then "ok" else "FAIL:model-differs-from-expected"
       let isp := match kv rest "obs" with
